@@ -62,6 +62,15 @@ def run(chk):
         s_sum = float(m.score(model, [pooled]))
         if not abs(s_sum - score) <= tol:
             chk.fail("scoring a probe given as several statistics (%.12g) differs from scoring their sum (%.12g)" % (score, s_sum), ctx)
+        # the probe as another kind of sequence than a list: the same statistics, the same score
+        if nprobe > 1:
+            try:
+                s_tup = float(m.score(model, tuple(probe)))
+                chk.count(1, key=("probe as tuple", kind))
+                if not abs(s_tup - score) <= tol:
+                    chk.fail("a probe given as a tuple of %d statistics scores %.12g, the same statistics in a list %.12g" % (nprobe, s_tup, score), dict(ctx, probe_container="tuple"))
+            except Exception as e:
+                chk.fail("scoring a probe given as a tuple of statistics raises %r" % (e,), dict(ctx, probe_container="tuple"))
         s_arr = float(m.score_using_array(model, arrays))
         if not abs(s_arr - score) <= tol:
             chk.fail("score_using_array differs from score on the UBM statistics of the same arrays", ctx)
